@@ -58,7 +58,8 @@
 (*      up = 0.  PoolMetrics: total_requests = successes + failures,       *)
 (*      success_rate = successes / total (1.0 for none), both without      *)
 (*      wrapping; average_response_time = mean of the last 1000 samples    *)
-(*      (+-1 ns), p95 = a sample with at least 95 % of the samples <= it.  *)
+(*      (+-1 ns), p95 = a sample with at least 95 % of the samples <= it   *)
+(*      and at most 95 % (+ half a sample) strictly below it.              *)
 (*  ST9 PrometheusExporter: after update_from_pool_metrics /               *)
 (*      update_from_streaming_metrics every exported value equals the      *)
 (*      value of its source at that moment - however often it is called.   *)
@@ -229,10 +230,15 @@ WinCountLeq(w, x) == LET RECURSIVE C(_)
 AvgRtOk(w, r) ==      \* r: Option
   IF w = <<>> THEN r = <<>>
   ELSE Len(r) = 1 /\ \E q \in {BnSubSat(r[1], BnOne), r[1], BnInc(r[1])} : BnIsQuot(q, WinSum(w), BnOfNat(WinLen(w)))
+WinCountLt(w, x) == LET RECURSIVE C(_)
+                        C(q) == IF q = <<>> THEN 0 ELSE (IF BnLt(q[1][1], x) THEN q[1][2] ELSE 0) + C(Tail(q))
+                    IN C(w)
+\* a sample with at least 95 % of the samples <= it and at most 95 % (+ half a sample: rounding of the rank) below it
 P95Ok(w, r) ==
   IF w = <<>> THEN r = <<>>
   ELSE /\ Len(r) = 1 /\ \E i \in 1..Len(w) : w[i][1] = r[1]
        /\ 100 * WinCountLeq(w, r[1]) >= 95 * WinLen(w)
+       /\ 100 * WinCountLt(w, r[1]) <= 95 * WinLen(w) + 50
 PoolTotal(p) == BnAdd(p.succ, p.fail)
 PoolRateOk(f, p) == Ratio64Ok(f, p.succ, PoolTotal(p), Bn1e9)
 
